@@ -383,7 +383,7 @@ def case_refresh(case):
     st = {"var": 1.3, "ls": len_scale_of(kind, geo_of(kind, sdim, case["aniso"])), "nug": case["nugget"], "idx": idx, "z": z}
     geo = geo_of(kind, sdim, case["aniso"])
     proc = ("const" if variant in ("Simple", "GenericDrift") else "none", "none", "none")
-    base = dict(exact=False, cond_err="nugget", pinv="pinv", proc=proc)
+    base = dict(exact=bool(case.get("exact", False)), cond_err="nugget", pinv="pinv", proc=proc)
     k, ref0 = build_pair(case, P[:, idx], z, cond_ext=ext_all[..., idx], **base)
     if k is None:
         return r.done(skip="kriging system numerically singular (cond > 1e10)")
@@ -461,7 +461,7 @@ def _ref_state(case, cond_pos, cond_val, proc, cond_ext, st, model, geo):
         norm, mean, unb = None, None, False
     elif variant == "GenericDrift":
         drift_fns, unb = [lambda *p: 1.0 + 0.0 * p[0], lambda *p: p[0]], False
-    return kr.RefKrige(cls, MODELS[cls], st["var"], st["ls"], st["nug"], geo, cond_pos, cond_val, unbiased=unb, drift_fns=drift_fns, cond_ext=cond_ext if variant in EXTV else None, mean=mean, trend=trend, normalizer=norm, exact=False, cond_err="nugget", gs_model=model)
+    return kr.RefKrige(cls, MODELS[cls], st["var"], st["ls"], st["nug"], geo, cond_pos, cond_val, unbiased=unb, drift_fns=drift_fns, cond_ext=cond_ext if variant in EXTV else None, mean=mean, trend=trend, normalizer=norm, exact=bool(case.get("exact", False)), cond_err="nugget", gs_model=model)
 
 
 GROUPS = {"krige": case_krige, "refresh": case_refresh}
@@ -484,7 +484,7 @@ def layouts(P, nmin, nmax, full):
     return res
 
 
-def refresh_cases(tier, gen, mops, depth, nugget=None, mode=None):
+def refresh_cases(tier, gen, mops, depth, nugget=None, mode=None, exact=False):
     cops = ["refresh", "newval", "newpos"]
     hists = []
     for L in range(1, depth + 1):
@@ -503,6 +503,8 @@ def refresh_cases(tier, gen, mops, depth, nugget=None, mode=None):
                         c = {"variant": variant, "cls": cls, "kind": kind, "sdim": sdim, "aniso": aniso, "layout": list(range(0, 2 * nm, 2))[:nm] if P.shape[1] >= 2 * nm - 1 else list(range(nm)), "nugget": (0.0 if aniso else 0.3) if nugget is None else nugget, "gen": gen, "hist": h}
                         if mode:
                             c["mode"] = mode
+                        if exact:
+                            c["exact"] = True
                         hcases.append(c)
     return hcases
 
